@@ -13,7 +13,7 @@ var known = ev.Matcher[Case]{}
 
 const rule = "exhaustive: every directed FK graph with self loops over n tables (n<=3 quick, n<=4 thorough; 2^(n*n) graphs) x every assignment of tables to {kept, created, dropped} " +
 	"(edges among kept+dropped tables live in the current schema, edges among kept+created tables in the desired one, so kept tables gain FKs to created and lose FKs to dropped tables) " +
-	"x {MySQL, PostgreSQL} x plan mode {unset, in-place, deferred, dump} x FK naming {per edge: a re-pointed FK is drop+add; per table slot: the n-th FK of a kept table keeps its name when its parent is replaced => ModifyForeignKey}; sampled n=4 in quick; random: 5-8 tables with independent current/desired graphs (FKs added, dropped and kept between kept tables) and two-column FKs. " +
+	"x {MySQL, PostgreSQL} x plan mode {unset, in-place, deferred, dump} x {one schema; for n>=2 and modes unset/in-place: two schemas (table i in schema i%2, tables 2k and 2k+1 sharing a name; changes from RealmDiff, schema-qualified SQL)} x FK naming {per edge: a re-pointed FK is drop+add; per table slot: the n-th FK of a kept table keeps its name when its parent is replaced => ModifyForeignKey}; sampled n=4 in quick; random: 5-8 tables with independent current/desired graphs (FKs added, dropped and kept between kept tables) and two-column FKs. " +
 	"Changes = DefaultDiff.SchemaDiff, plan = DefaultPlan.PlanChanges. Oracle: a reference catalogue replays the plan from its SQL text (CREATE TABLE ... REFERENCES, ADD CONSTRAINT, DROP FOREIGN KEY/CONSTRAINT, DROP TABLE) " +
 	"enforcing: referenced table exists when an FK is declared (self references allowed), a table is dropped only when no other table references it, nothing created/dropped twice, final catalogue == desired; PlanChanges terminates without error. " +
 	"non-trivial = >=1 FK edge in the change set; distinct key = (graph, assignment, dialect, mode)"
@@ -85,7 +85,7 @@ func repointed(c Case) bool {
 func genRandom(t *rapid.T) Case {
 	n := rapid.IntRange(5, 8).Draw(t, "n")
 	c := Case{N: n, Dialect: rapid.SampledFrom([]string{"mysql", "postgres"}).Draw(t, "dialect"), Mode: rapid.IntRange(0, 3).Draw(t, "mode"),
-		Multi: rapid.Bool().Draw(t, "multi"), Names: rapid.IntRange(0, 1).Draw(t, "names")}
+		Multi: rapid.Bool().Draw(t, "multi"), Names: rapid.IntRange(0, 1).Draw(t, "names"), Split: rapid.IntRange(0, 2).Draw(t, "split") == 0}
 	for i := 0; i < n; i++ {
 		c.Role = append(c.Role, rapid.SampledFrom([]int{kept, kept, created, dropped}).Draw(t, "role"))
 	}
@@ -111,8 +111,11 @@ func mkCheck(col *ev.Collector) func(Case) error {
 		if c.Names == 1 && repointed(c) {
 			col.Class(c.Dialect + "/re-pointed-fk-keeps-its-name")
 		}
+		if c.Split {
+			col.Class(c.Dialect + "/two-schemas-with-same-named-tables/" + sh)
+		}
 		if n > 0 {
-			col.NonTrivial(fmt.Sprintf("%d|%v|%v|%v|%s|%d|%d", c.N, c.Role, c.FromE, c.ToE, c.Dialect, c.Mode, c.Names))
+			col.NonTrivial(fmt.Sprintf("%d|%v|%v|%v|%s|%d|%d|%v", c.N, c.Role, c.FromE, c.ToE, c.Dialect, c.Mode, c.Names, c.Split))
 		}
 		col.Sample(c.Dialect+"/"+sh, c)
 		return err
@@ -147,6 +150,14 @@ func TestCheck(t *testing.T) {
 						}
 						// the same case with slot-named foreign keys: a kept table's n-th FK keeps its name when it
 						// moves from a dropped parent to a created/kept one, so the differ reports ModifyForeignKey
+						// the same graph spread over two schemas, tables 2k and 2k+1 sharing one name
+						if n >= 2 && len(c.FromE)+len(c.ToE) > 0 && mode <= 1 {
+							c.Split = true
+							if !ev.Each(col, "exhaustive-two-schemas", c, check, known) {
+								return
+							}
+							c.Split = false
+						}
 						if repointed(c) {
 							c.Names = 1
 							if !ev.Each(col, "exhaustive-slot-names", c, check, known) {
@@ -168,6 +179,7 @@ func TestCheck(t *testing.T) {
 			}
 			c := mkCase(4, rapid.Uint32Range(0, 1<<16-1).Draw(t, "mask"), roles, rapid.SampledFrom([]string{"mysql", "postgres"}).Draw(t, "dialect"), rapid.IntRange(0, 3).Draw(t, "mode"))
 			c.Names = rapid.IntRange(0, 1).Draw(t, "names")
+			c.Split = rapid.IntRange(0, 2).Draw(t, "split") == 0
 			return c
 		}
 		if !ev.Rapid(t, col, "sampled-n4", col.N(20000, 1), gen4, check, known) {
